@@ -20,7 +20,7 @@
 From Coq Require Import String List ZArith NArith Bool.
 Import ListNotations.
 From Selfies Require Import Base Generated Atoms Grammar Decoder PySet Matching Smiles Kekulize Encoder
-  IndexSpec IndexCode Reader RoundTrip EncoderFacts PureFacts ParserTotal EncFuel EncIndex EncKey EncAttrErr EncUniq EncOrders EncKek EncMatch EncMatchSafe EncCount EncGreedy EncGreedyT EncOutcomes.
+  IndexSpec IndexCode Reader RoundTrip EncoderFacts PureFacts ParserTotal EncFuel EncIndex EncKey EncAttrErr EncUniq EncOrders EncKek EncMatch EncMatchSafe EncCount EncGreedy EncGreedyT EncMatchT EncOutcomes.
 Local Open Scope string_scope.
 
 Theorem C09_parse_error_is_encoder_error_partial : forall capf s strict attribute,
@@ -140,6 +140,20 @@ Theorem C09_greedy_phase_returns : forall smiles attribute m0 g,
   smiles_to_mol smiles attribute = Ok m0 -> pruned_ds m0 = Ok g -> exists mt, greedy_matching g = Ok mt.
 Proof. exact parsed_greedy_total. Qed.
 
+(* and so does the rest of the routine, except for the set (proofs/EncMatchT.v): the BFS ends because a node enters the queue
+   only when its parents entry is written for the first time; the path reconstruction ends because every entry points to
+   a node whose own entry was written earlier; the loop over `unmatched` ends because every round pops one element and
+   nothing is ever added.  Hence on the pruned graph of a parsed molecule the only thing that can fail inside
+   find_perfect_matching is an operation of the CPython set model itself - and of those only the probe loops have a fuel
+   (C09_matching_raises_nothing_partial: the failure is OutOfFuel).  What remains unproved for "encoder always terminates"
+   is therefore exactly: the probe sequence of setobject.c reaches an unused slot within the model's bound. *)
+Theorem C09_matching_fails_only_in_set_operations_partial : forall smiles attribute m0 g e,
+  smiles_to_mol smiles attribute = Ok m0 -> pruned_ds m0 = Ok g -> find_perfect_matching g = Err e ->
+  (exists l, ps_of_list l = Err e) \/ (exists s, ps_pop s = Err e) \/ (exists k s, ps_discard k s = Err e).
+Proof.
+  intros smiles attribute m0 g e Ep Eg Em. destruct (parsed_matching_fails_only_in_set_ops smiles attribute m0 g e Ep Eg Em) as [H|[H|H]]; auto.
+Qed.
+
 (* everything assembled, for EVERY string, every table with a '?' entry and both flags: the model of encoder() returns, or
    raises EncoderError, or the reader's int() refuses an over-long digit field (ValueError: known finding), or ends in
    the model-only outcome OutOfFuel inside find_perfect_matching - i.e. NO OTHER EXCEPTION TYPE ESCAPES; what is not
@@ -177,6 +191,7 @@ Print Assumptions C09_matching_raises_only_in_greedy_partial.
 Print Assumptions C09_encoder_outcomes_partial.
 Print Assumptions C09_matching_raises_nothing_partial.
 Print Assumptions C09_greedy_phase_returns.
+Print Assumptions C09_matching_fails_only_in_set_operations_partial.
 Print Assumptions C09_emission_no_assertion_error_partial.
 Print Assumptions C09_emission_no_value_error_partial.
 Print Assumptions C09_kekulize_leaves_integral_orders.
